@@ -217,3 +217,156 @@ contract('Solver.value_iteration_reachability', heap=SOLVER_HEAP,
                           5: [mono_all('snap[_i1 - 1]', 'RP')]}),
              2: dict(inv=[f"forall(t, 0, _i2, ERM[{SL_}[t]] == RP[{SL_}[t]])"])},
          props=['C01', 'C02', 'C04', 'C06', 'C14', 'C13'])
+
+# ------------------------------------------------------------------ conditioning (C03, C10, C02, C05, C06)
+OLDNS = "old(lcontent(self.next_states))"
+NS_ALLOC = "0 <= self.next_states and self.next_states < alloc_l()"
+PROBS_POS = "forall(k, 0, len(self.next_states), prob(lcontent(self.next_states)[k]) > 0)"
+FA_ALL = f"FilterAlive({OLDNS}, state_list, RP, len({OLDNS}))"
+
+
+def pruned_post(c):
+    """content of self.next_states after conditioning on reachability, as the statement words it"""
+    p1 = f"eqlist(self.next_states, {FA_ALL})"
+    pr = (f"(implies(len({FA_ALL}) == len({OLDNS}), self.next_states == old(self.next_states))"
+          f" and implies(len({FA_ALL}) != len({OLDNS}), eqlist(self.next_states, Renorm({FA_ALL}, AliveMass({OLDNS}, state_list, RP, len({OLDNS})), len({FA_ALL})))))")
+    return {1: p1, 0: pr, None: f"(implies(cls(self) == 1, {p1}) and implies(cls(self) == 0, {pr}))"}[c]
+
+
+PRUNE_COMMON_POST = ["forall(k, 0, len(self.next_states), RP[state_list[self.next_states[k][1]]] != 0)",        # no dead branch survives
+                     "forall(k, 0, len(self.next_states), 0 <= self.next_states[k][1] and self.next_states[k][1] < len(state_list))",
+                     NS_ALLOC]
+contract('ProbabilisticNode.prune_paths', slot0='prob',
+         params={'self': REF('ProbabilisticNode'), 'state_list': SLT},
+         locals={'surviving_states': NS, 'surviving_probability': REAL, 'new_next_states': NS, 'new_state_probability': REAL, 'next_state': NODE},
+         requires=[SUCC_IN_RANGE, "cls(self) == 0", PROBS_POS, NS_ALLOC],
+         ensures=[pruned_post(0)] + PRUNE_COMMON_POST + [
+             "implies(len(self.next_states) > 0, SumP(lcontent(self.next_states), len(self.next_states)) == 1 or self.next_states == old(self.next_states))",
+             "forall(k, 0, len(self.next_states), prob(lcontent(self.next_states)[k]) > 0)"],
+         modifies={'next_states': ['self'], '__lists__': []}, allocates=True,
+         loops={0: dict(inv=[f"surviving_states == FilterAlive({NS_}, state_list, RP, _i)",
+                             f"surviving_probability == AliveMass({NS_}, state_list, RP, _i)"]),
+                1: dict(inv=["new_next_states == Renorm(surviving_states, surviving_probability, _i1)"],
+                        hint_pre=["surviving_probability > 0"])},
+         # after the first loop the survivors are the filtered list; lemma instances about it
+         after_loop_use={0: [f"L_AliveMass_pos({NS_}, state_list, RP, len(self.next_states))", f"L_FA_len({NS_}, state_list, RP, len(self.next_states))"]},
+         opaque_post=('FilterAlive', 'AliveMass', 'Renorm', 'SumP'),
+         use_post={'all': [f"L_FA_len({OLDNS}, state_list, RP, len({OLDNS}))",
+                           f"L_Renorm_len({FA_ALL}, AliveMass({OLDNS}, state_list, RP, len({OLDNS})), len({FA_ALL}))"],
+                   1: [f"L_FA_alive({OLDNS}, state_list, RP, len({OLDNS}))", f"L_FA_full({OLDNS}, state_list, RP, len({OLDNS}))",
+                       f"L_Renorm_at({FA_ALL}, AliveMass({OLDNS}, state_list, RP, len({OLDNS})), len({FA_ALL}))"],
+                   2: [f"L_FA_from({OLDNS}, state_list, RP, len({OLDNS}))",
+                       f"L_Renorm_at({FA_ALL}, AliveMass({OLDNS}, state_list, RP, len({OLDNS})), len({FA_ALL}))"],
+                   4: [f"L_Renorm_sum({FA_ALL}, AliveMass({OLDNS}, state_list, RP, len({OLDNS})), len({FA_ALL}))",
+                       f"L_FA_sum({OLDNS}, state_list, RP, len({OLDNS}))", f"L_AliveMass_pos({OLDNS}, state_list, RP, len({OLDNS}))",
+                       f"L_SumP_ext(lcontent(self.next_states), Renorm({FA_ALL}, AliveMass({OLDNS}, state_list, RP, len({OLDNS})), len({FA_ALL})), len({FA_ALL}))"],
+                   5: [f"L_FA_from({OLDNS}, state_list, RP, len({OLDNS}))", f"L_AliveMass_pos({OLDNS}, state_list, RP, len({OLDNS}))",
+                       f"L_Renorm_at({FA_ALL}, AliveMass({OLDNS}, state_list, RP, len({OLDNS})), len({FA_ALL}))"]},
+         props=['C03', 'C02', 'C05', 'C06', 'C10', 'C13', 'C14'])
+contract('PlayerOne.prune_paths', slot0='lab',
+         params={'self': REF('PlayerOne'), 'state_list': SLT},
+         requires=[SUCC_IN_RANGE, "cls(self) == 1", NS_ALLOC],
+         ensures=[pruned_post(1)] + PRUNE_COMMON_POST,
+         modifies={'next_states': ['self'], '__lists__': []}, allocates=True,
+         comps={0: dict(type=NS, **{'is': f"FilterAlive({NS_}, state_list, RP, _n)"})},
+         use_post={1: [f"L_FA_alive({OLDNS}, state_list, RP, len({OLDNS}))"], 2: [f"L_FA_from({OLDNS}, state_list, RP, len({OLDNS}))"]},
+         props=['C03', 'C02', 'C05', 'C06', 'C10', 'C13', 'C14'])
+contract('Node.prune_paths', virtual=True, implementations=['ProbabilisticNode', 'PlayerOne'],
+         params={'self': NODE, 'state_list': SLT},
+         requires=[SUCC_IN_RANGE, "cls(self) == 0 or cls(self) == 1", f"implies(cls(self) == 0, {PROBS_POS})", NS_ALLOC],
+         ensures=[pruned_post(None)] + PRUNE_COMMON_POST + ["implies(cls(self) == 0, forall(k, 0, len(self.next_states), prob(lcontent(self.next_states)[k]) > 0))"],
+         modifies={'next_states': ['self'], '__lists__': []}, allocates=True,
+         props=['C03', 'C02', 'C05', 'C06', 'C10', 'C13', 'C14'])
+contract('PlayerOne.prune_paths_reachability', slot0='lab',
+         params={'self': REF('PlayerOne'), 'best_strategies': OPT(LSTR)},
+         requires=["cls(self) == 1", "not isnone(best_strategies)", NS_ALLOC],
+         ensures=[f"eqlist(self.next_states, FilterLab({OLDNS}, some(best_strategies), len({OLDNS})))", NS_ALLOC],
+         modifies={'next_states': ['self'], '__lists__': []}, allocates=True,
+         comps={0: dict(type=NS, **{'is': f"FilterLab({NS_}, some(best_strategies), _n)"})},
+         props=['C03', 'C02', 'C05', 'C10', 'C13'])
+
+
+def HEAPWF(SL):
+    return [f"forall(a, 0, len({SL}), 0 <= {SL}[a].next_states and {SL}[a].next_states < alloc_l())"]
+
+
+def OLDNSOF(a):
+    return f"old(lcontent({SL_}[{a}].next_states))"
+
+
+def pruned_state(a):
+    """content of state a's list after prune_paths, in terms of the entry state"""
+    FA = f"FilterAlive({OLDNSOF(a)}, {SL_}, RP, len({OLDNSOF(a)}))"
+    AM = f"AliveMass({OLDNSOF(a)}, {SL_}, RP, len({OLDNSOF(a)}))"
+    return (f"(implies(cls({SL_}[{a}]) == 1, eqlist({SL_}[{a}].next_states, {FA}))"
+            f" and implies(cls({SL_}[{a}]) == 0, implies(len({FA}) == len({OLDNSOF(a)}), {SL_}[{a}].next_states == old({SL_}[{a}].next_states))"
+            f" and implies(len({FA}) != len({OLDNSOF(a)}), eqlist({SL_}[{a}].next_states, Renorm({FA}, {AM}, len({FA})))))"
+            f" and implies(cls({SL_}[{a}]) == 2, {SL_}[{a}].next_states == old({SL_}[{a}].next_states)))")
+
+
+def nodead_state(a):
+    return f"implies(cls({SL_}[{a}]) != 2, forall(k, 0, len({SL_}[{a}].next_states), RP[{SL_}[{SL_}[{a}].next_states[k][1]]] != 0))"
+
+
+PROBS_POS_S = f"forall(a, 0, len({SL_}), implies(cls({SL_}[a]) == 0, forall(k, 0, len({SL_}[a].next_states), prob(lcontent({SL_}[a].next_states)[k]) > 0)))"
+OLD_LISTS_SAME = "forall(r, implies(0 <= r and r < old(alloc_l()), lcontent(r) == old(lcontent(r))))"
+contract('Solver.prune_paths', heap=SOLVER_HEAP,
+         params={'self': REF('Solver')}, locals={'state': NODE},
+         requires=VALID(SL_) + HEAPWF(SL_) + [PROBS_POS_S],
+         ensures=[f"forall(a, 0, len({SL_}), {pruned_state('a')})",
+                  f"forall(a, 0, len({SL_}), {nodead_state('a')})"] + VALID(SL_) + HEAPWF(SL_) + [PROBS_POS_S],
+         modifies={'next_states': [f"exists(p, 0, len({SL_}), {SL_}[p] == _o)"], '__lists__': []}, allocates=True,
+         loops={0: dict(inv=[f"forall(a, 0, _i, {pruned_state('a')})", f"forall(a, 0, _i, {nodead_state('a')})",
+                             f"forall(a, _i, len({SL_}), {SL_}[a].next_states == old({SL_}[a].next_states))",
+                             OLD_LISTS_SAME, "alloc_l() >= old(alloc_l())",
+                             f"forall(r, implies(not exists(p, 0, len({SL_}), {SL_}[p] == r), NSF[r] == old(NSF[r])))"] + VALID(SL_) + HEAPWF(SL_) + [PROBS_POS_S],
+                        hint_pre=[f"forall(p, 0, len({SL_}), forall(p2, 0, len({SL_}), implies(p != p2, {SL_}[p] != {SL_}[p2])))"])},
+         props=['C03', 'C02', 'C05', 'C06', 'C10', 'C13', 'C14'])
+
+RS_ = "reachability_strategies"
+
+
+def reach_pruned_state(a):
+    return (f"(implies(cls({SL_}[{a}]) == 1, eqlist({SL_}[{a}].next_states, FilterLab({OLDNSOF(a)}, some({RS_}[{a}]), len({OLDNSOF(a)}))))"
+            f" and implies(cls({SL_}[{a}]) != 1, {SL_}[{a}].next_states == old({SL_}[{a}].next_states)))")
+
+
+OTHER_OBJS_SAME = f"forall(r, implies(not exists(p, 0, len({SL_}), {SL_}[p] == r), NSF[r] == old(NSF[r])))"
+contract('Solver.prune_reachability', heap=SOLVER_HEAP,
+         params={'self': REF('Solver'), 'reachability_strategies': LIST(OSTR)}, locals={'state': NODE, 'idx': INT},
+         requires=VALID(SL_) + HEAPWF(SL_) + [f"len({RS_}) == len({SL_})", f"forall(a, 0, len({SL_}), implies(cls({SL_}[a]) == 1, not isnone({RS_}[a])))"],
+         ensures=[f"forall(a, 0, len({SL_}), {reach_pruned_state('a')})"] + VALID(SL_) + HEAPWF(SL_),
+         modifies={'next_states': [f"exists(p, 0, len({SL_}), {SL_}[p] == _o)"], '__lists__': []}, allocates=True,
+         loops={0: dict(inv=[f"forall(a, 0, _i, {reach_pruned_state('a')})",
+                             f"forall(a, _i, len({SL_}), {SL_}[a].next_states == old({SL_}[a].next_states))",
+                             OLD_LISTS_SAME, "alloc_l() >= old(alloc_l())", OTHER_OBJS_SAME] + VALID(SL_) + HEAPWF(SL_),
+                        hint_pre=[f"forall(p, 0, len({SL_}), forall(p2, 0, len({SL_}), implies(p != p2, {SL_}[p] != {SL_}[p2])))"],
+                        use={10: [f"L_FL_from({OLDNSOF('_i - 1')}, some({RS_}[_i - 1]), len({OLDNSOF('_i - 1')}))"]})},
+         props=['C03', 'C02', 'C05', 'C10', 'C13', 'C14'])
+
+# ------------------------------------------------------------------ prune_states (C03 (iii), C06, C10)  -- DESIGN A.2
+AB = ARR(INT, BOOL)
+# F0 is ANY predicate on state numbers that satisfies the inversion rule of "reachable from state 0 in the graph at entry";
+# the least such predicate is forward reachability (M_LFP_inv, lean/Meta.lean), so the postcondition holds for it.
+F0_INV = (f"forall(a, 0, len({SL_}), implies(F0[a], a == 0 or exists(p, 0, len({SL_}), F0[p] and exists(k, 0, len({SL_}[p].next_states), {SL_}[p].next_states[k][1] == a))))")
+PS_I1 = (f"forall(a, 0, len({SL_}), {SL_}[a].next_states == old({SL_}[a].next_states)"
+         f" or (cls({SL_}[a]) != 1 and len({SL_}[a].next_states) == 0 and not F0[a]))")
+PS_COMMON = [PS_I1, OLD_LISTS_SAME, "alloc_l() >= old(alloc_l())", OTHER_OBJS_SAME] + VALID(SL_) + HEAPWF(SL_)
+IN_REACH = lambda x: f"exists(m, 0, len(reachable_states), reachable_states[m] == {x})"
+contract('Solver.prune_states', heap=SOLVER_HEAP,
+         params={'self': REF('Solver'), 'F0': AB}, ghost_params={'F0': 'F0'},
+         locals={'finished': BOOL, 'not_reachable_states': LIST(INT), 'reachable_states': LIST(INT), 'not_reachable_states_new': LIST(INT),
+                 'state': NODE, 'idx': INT, 'next_state': TRANS},
+         requires=VALID(SL_) + HEAPWF(SL_) + [F0_INV, f"len({SL_}) >= 1"],
+         ensures=[PS_I1] + VALID(SL_) + HEAPWF(SL_),
+         modifies={'next_states': [f"exists(p, 0, len({SL_}), {SL_}[p] == _o)"], '__lists__': []}, allocates=True,
+         loops={0: dict(inv=PS_COMMON),
+                1: dict(inv=["len(reachable_states) >= 1", "reachable_states[0] == 0",
+                             f"forall(a, 0, _i1, forall(k, 0, len({SL_}[a].next_states), {IN_REACH(f'{SL_}[a].next_states[k][1]')}))"]),
+                2: dict(inv=["len(reachable_states) >= 1", "reachable_states[0] == 0",
+                             f"forall(a, 0, _i1, forall(k, 0, len({SL_}[a].next_states), {IN_REACH(f'{SL_}[a].next_states[k][1]')}))",
+                             f"forall(k, 0, _i2, {IN_REACH('state.next_states[k][1]')})"]),
+                3: dict(inv=PS_COMMON + [IN_REACH('0'),
+                                         f"forall(a, 0, len({SL_}), implies({SL_}[a].next_states == old({SL_}[a].next_states), forall(k, 0, len({OLDNSOF('a')}), {IN_REACH(f'tgt({OLDNSOF(chr(97))}[k])')})))"],
+                        hint_pre=[f"forall(p, 0, len({SL_}), forall(p2, 0, len({SL_}), implies(p != p2, {SL_}[p] != {SL_}[p2])))"])},
+         props=['C03', 'C02', 'C06', 'C10', 'C13', 'C14'])
